@@ -18,6 +18,7 @@ class Field:
     def __init__(self, size: Optional[int], kind: str, src: str = "", order: Optional[str] = None, value: Optional[bytes] = None,
                  alts: Optional[List[List["Field"]]] = None, test: str = "", code: str = ""):
         self.size, self.kind, self.src, self.order, self.value, self.alts, self.test, self.code = size, kind, src, order, value, alts, test, code
+        self.opaque = False
 
     def desc(self) -> Any:
         if self.kind == "const":
@@ -28,6 +29,8 @@ class Field:
             return (self.size, "int", self.order, self.src)
         if self.kind == "alt":
             return (self.size, "alt", self.test, [[f.desc() for f in a] for a in (self.alts or [])])
+        if self.kind == "repeat":
+            return (None, "repeat", self.src)
         return (self.size, self.kind, self.src)
 
     def __repr__(self) -> str:
@@ -63,9 +66,36 @@ def _understood(lay: List[Field]) -> bool:
             return True
         if f.kind == "alt" and any(_understood(a) for a in (f.alts or [])):
             return True
-        if f.kind == "bytes" and f.size is not None:
+        if f.kind == "bytes" and (f.size is not None or (f.src and not f.opaque)):
+            return True
+        if f.kind == "repeat":
             return True
     return False
+
+
+class _Ren(ast.NodeTransformer):
+    def __init__(self, names):
+        self.names = set(names)
+
+    def visit_Name(self, node):
+        if node.id in self.names:
+            return ast.copy_location(ast.Name(id="_", ctx=node.ctx), node)
+        return node
+
+
+def _target_names(t: ast.expr) -> List[str]:
+    return [n.id for n in ast.walk(t) if isinstance(n, ast.Name)]
+
+
+def repeat_src(elt: ast.expr, target: ast.expr, it: ast.expr, ifs: Optional[List[ast.expr]] = None) -> str:
+    """Canonical text of `elt for target in it [if ..]` with the loop variable(s) abstracted."""
+    import copy
+    names = _target_names(target)
+    e2 = _Ren(names).visit(copy.deepcopy(A.clone(elt)))
+    txt = f"{norm(e2)} for _ in {norm(it)}"
+    for c in ifs or []:
+        txt += f" if {norm(_Ren(names).visit(copy.deepcopy(A.clone(c))))}"
+    return txt
 
 
 _ORDER = {"little": "little", "big": "big", "<": "little", ">": "big", "!": "big"}
@@ -76,6 +106,7 @@ class Layout:
         self.fold = fold
         self.fn = fn
         self.env: Dict[str, List[Field]] = {}
+        self.pending: Dict[str, List[Field]] = {}
         self.order_of = order_of
 
     def order(self, e: Optional[ast.expr]) -> Optional[str]:
@@ -139,12 +170,8 @@ class Layout:
                 size = self.fold(n) if n is not None else None
                 return [Field(size if isinstance(size, int) else None, "int", src=self.src(x) if x is not None else "?", order=self.order(o) if o is not None else "big",
                               code=norm(n) if n is not None else "")]
-            if nm == "join" and isinstance(e.func, ast.Attribute) and isinstance(e.func.value, ast.Constant) and e.func.value.value == b"" and len(e.args) == 1 \
-                    and isinstance(e.args[0], (ast.Tuple, ast.List)):
-                out: List[Field] = []
-                for x in e.args[0].elts:
-                    out += self.expr(x)
-                return out
+            if nm == "join" and isinstance(e.func, ast.Attribute) and isinstance(e.func.value, ast.Constant) and e.func.value.value == b"" and len(e.args) == 1:
+                return self.chunks(e.args[0])
             if nm in ("pack", "pack_into") and e.args and not isinstance(self.fold(e.args[0]), str):
                 # symbolic tail: f"<BBH{len(data)}B" with a starred payload, or f"...{n}s" with a bytes payload
                 fe = A.inline_locals(self.fn, e.args[0]) if self.fn is not None else e.args[0]
@@ -165,7 +192,12 @@ class Layout:
                 fmt = self.fold(e.args[0])
                 if isinstance(fmt, str):
                     items = struct_items(fmt)
-                    args = list(e.args[1:])
+                    args = []
+                    for a in e.args[1:]:
+                        if isinstance(a, ast.Starred) and isinstance(a.value, (ast.List, ast.Tuple)):
+                            args += list(a.value.elts)
+                        else:
+                            args.append(a)
                     if items is not None and not any(isinstance(a, ast.Starred) for a in args):
                         out = []
                         ai = 0
@@ -191,7 +223,7 @@ class Layout:
                                     out.append(Field(sz, "int", src=self.src(a), order=bo, code=code))
                         if ai == len(args):
                             return out
-            return [Field(None, "bytes", src=self.src(e))]
+            return [self._opaque(e)]
         if isinstance(e, ast.BinOp) and isinstance(e.op, ast.Mult):
             n = self.fold(e.right)
             inner = self.expr(e.left)
@@ -202,11 +234,80 @@ class Layout:
             hi = self.fold(e.slice.upper) if e.slice.upper is not None else None
             if isinstance(lo, int) and isinstance(hi, int) and 0 <= lo <= hi:
                 return [Field(hi - lo, "bytes", src=self.src(e))]
-        return [Field(None, "bytes", src=self.src(e))]
+        return [self._opaque(e)]
+
+    def _opaque(self, e: ast.expr) -> Field:
+        f = Field(None, "bytes", src=self.src(e))
+        f.opaque = True
+        return f
+
+    def _promote(self, name: str) -> bool:
+        """An opaque value becomes an accumulator the moment something is appended to it."""
+        if name not in self.env and name in self.pending:
+            self.env[name] = self.pending.pop(name)
+        return name in self.env
+
+    def chunks(self, e: ast.expr) -> List[Field]:
+        """Layout of the concatenation of an iterable of bytes values."""
+        if isinstance(e, (ast.Tuple, ast.List)):
+            out: List[Field] = []
+            for x in e.elts:
+                out += self.expr(x)
+            return out
+        if isinstance(e, (ast.GeneratorExp, ast.ListComp)) and len(e.generators) == 1:
+            g = e.generators[0]
+            return [Field(None, "repeat", src=repeat_src(e.elt, g.target, g.iter, g.ifs))]
+        if isinstance(e, ast.Name) and e.id in self.env:
+            return list(self.env[e.id])
+        return [Field(None, "bytes", src=f"join({self.src(e)})")]
 
     def run(self, stmts: List[ast.stmt]) -> Optional[List[Field]]:
         """Straight-line interpretation; returns the layout of the first `return` reached at top level."""
         for st in stmts:
+            # chunk lists: xs = [a, b] / xs.append(e) / xs.extend(iterable);  bytearray: buf.extend(e) / buf += e
+            if isinstance(st, ast.Assign) and len(st.targets) == 1 and isinstance(st.targets[0], ast.Name) and isinstance(st.value, (ast.List, ast.Tuple)) \
+                    and (not st.value.elts or True):
+                self.env[st.targets[0].id] = self.chunks(st.value)
+                continue
+            if isinstance(st, ast.Expr) and isinstance(st.value, ast.Call) and isinstance(st.value.func, ast.Attribute) and isinstance(st.value.func.value, ast.Name) \
+                    and st.value.func.attr in ("append", "extend") and len(st.value.args) == 1 and self._promote(st.value.func.value.id):
+                a = st.value.args[0]
+                if st.value.func.attr == "append":
+                    self.env[st.value.func.value.id] = self.env[st.value.func.value.id] + self.expr(a)
+                elif isinstance(a, (ast.GeneratorExp, ast.ListComp, ast.List, ast.Tuple)):
+                    self.env[st.value.func.value.id] = self.env[st.value.func.value.id] + self.chunks(a)
+                else:
+                    self.env[st.value.func.value.id] = self.env[st.value.func.value.id] + self.expr(a)
+                continue
+            if isinstance(st, ast.For) and not st.orelse:
+                # for v in seq: acc += f(v) [; acc += g(v) ...]  (temporaries and asserts allowed)  ->  one repeat field
+                body = [b for b in st.body if not (isinstance(b, ast.Expr) and isinstance(b.value, ast.Constant)) and not isinstance(b, ast.Assert)]
+                tmp: Dict[str, ast.expr] = {}
+                ok = True
+                acc, vals = None, []
+                for b in body:
+                    a2, v2 = None, None
+                    if isinstance(b, ast.Assign) and len(b.targets) == 1 and isinstance(b.targets[0], ast.Name):
+                        tmp[b.targets[0].id] = A.subst(b.value, tmp) if tmp else b.value
+                        continue
+                    if isinstance(b, ast.AugAssign) and isinstance(b.op, ast.Add) and isinstance(b.target, ast.Name):
+                        a2, v2 = b.target.id, b.value
+                    elif isinstance(b, ast.Expr) and isinstance(b.value, ast.Call) and isinstance(b.value.func, ast.Attribute) and b.value.func.attr in ("append", "extend") \
+                            and isinstance(b.value.func.value, ast.Name) and len(b.value.args) == 1:
+                        a2, v2 = b.value.func.value.id, b.value.args[0]
+                    if a2 is None or (acc is not None and a2 != acc):
+                        ok = False
+                        break
+                    acc = a2
+                    vals.append(A.subst(v2, tmp) if tmp else v2)
+                val = None
+                if ok and vals:
+                    val = vals[0]
+                    for v3 in vals[1:]:
+                        val = ast.BinOp(left=val, op=ast.Add(), right=v3)
+                if ok and acc is not None and val is not None and self._promote(acc):
+                    self.env[acc] = self.env[acc] + [Field(None, "repeat", src=repeat_src(val, st.target, st.iter))]
+                    continue
             if isinstance(st, (ast.Assign, ast.AnnAssign)) and st.value is not None:
                 tgt = st.targets[0] if isinstance(st, ast.Assign) else st.target
                 if isinstance(tgt, ast.Name):
@@ -216,17 +317,21 @@ class Layout:
                         self.env[tgt.id] = lay
                     else:
                         self.env.pop(tgt.id, None)
+                        if len(lay) == 1 and lay[0].kind == "bytes" and lay[0].opaque:
+                            self.pending[tgt.id] = lay
             elif isinstance(st, ast.AugAssign) and isinstance(st.op, ast.Add) and isinstance(st.target, ast.Name):
-                if st.target.id in self.env:
+                if self._promote(st.target.id):
                     self.env[st.target.id] = self.env[st.target.id] + self.expr(st.value)
             elif isinstance(st, ast.If):
                 # both branches extend the same accumulator -> alternative field
                 before = {k: list(v) for k, v in self.env.items()}
                 sub_a = Layout(self.fold, self.fn, self.order_of)
                 sub_a.env = {k: list(v) for k, v in before.items()}
+                sub_a.pending = dict(self.pending)
                 ra = sub_a.run(st.body)
                 sub_b = Layout(self.fold, self.fn, self.order_of)
                 sub_b.env = {k: list(v) for k, v in before.items()}
+                sub_b.pending = dict(self.pending)
                 rb = sub_b.run(st.orelse)
                 if A.always_raises(st.body):
                     self.env = sub_b.env
@@ -251,3 +356,21 @@ class Layout:
             elif isinstance(st, ast.Return) and st.value is not None:
                 return self.expr(st.value)
         return None
+
+
+def normal_form(fold: Callable[[ast.expr], Any], fn_node: ast.AST, expr: Optional[ast.expr] = None) -> Optional[List[Any]]:
+    """Canonical field list of what `fn_node` returns (or of `expr` evaluated after the function's statements): independent of how
+    the bytes are assembled (one pack / several packs / += chain / join / bytearray / chunk list / loop vs comprehension)."""
+    L = Layout(fold, fn_node)
+    body = [s for i, s in enumerate(fn_node.body) if not (i == 0 and isinstance(s, ast.Expr) and isinstance(s.value, ast.Constant))]  # type: ignore[attr-defined]
+    res = L.run(body)
+    if expr is not None:
+        res = L.expr(expr)
+    if res is None:
+        return None
+    out = []
+    for f in merge_consts(res):
+        if f.kind in ("const", "zeros") and f.size == 0:
+            continue
+        out.append(f.desc())
+    return out
